@@ -146,9 +146,9 @@ def rule_writer_finder(ck: Check, repo: Repo, folder: Folder) -> None:
     wm = repo.func(f"{CS}._create_comment_multi")
     s3 = re.sub(r"\s+", " ", ast.unparse(wm))
     ok3 = "result.append(cls.MULTI_LINE.start)" in s3 and "result.append(cls.INDENT_BEFORE_END + cls.MULTI_LINE.end)" in s3
-    ok4 = "text.startswith(cls.MULTI_LINE.start)" in s2 and ("if line.endswith(cls.MULTI_LINE.end): break" in s2
-                                                               or "if line.rstrip().endswith(cls.MULTI_LINE.end): break" in s2
-                                                               or "if cls.MULTI_LINE.end in line: break" in s2)
+    # the block ends at the first line that ends in the closing delimiter - left by `break` or by returning the block there
+    ok4 = "text.startswith(cls.MULTI_LINE.start)" in s2 and re.search(
+        r"if (line(\.rstrip\(\))?\.endswith\(cls\.MULTI_LINE\.end\)|cls\.MULTI_LINE\.end in line): (end = \w+ )?(break|return )", s2) is not None
     r.instance("multi-line", {"writer_brackets": ok3, "finder_brackets": ok4})
     if not (ok3 and ok4):
         r.violation(f"{CS}._create_comment_multi", "multi-line writer/finder brackets", f"writer={ok3} finder={ok4}", repo.loc(wm))
